@@ -92,6 +92,25 @@ def rule_r1(rep, program: Program):
                 local_defs.setdefault(n.targets[0].id, []).append(n.value)
             if isinstance(n, ast.For) and isinstance(n.target, ast.Name):
                 local_defs.setdefault(n.target.id, []).append(n.iter)
+            # unpacking: each name may be (a view of) an element of the unpacked value
+            if isinstance(n, ast.Assign) and len(n.targets) == 1 and isinstance(n.targets[0], (ast.Tuple, ast.List)):
+                elts = n.targets[0].elts
+                if isinstance(n.value, (ast.Tuple, ast.List)) and len(n.value.elts) == len(elts):
+                    pairs = list(zip(elts, n.value.elts))
+                else:
+                    pairs = [(t, n.value) for t in elts]
+                for t, v in pairs:
+                    t = t.value if isinstance(t, ast.Starred) else t
+                    if isinstance(t, ast.Name):
+                        local_defs.setdefault(t.id, []).append(v)
+            if isinstance(n, ast.For) and isinstance(n.target, (ast.Tuple, ast.List)):
+                for t in n.target.elts:
+                    if isinstance(t, ast.Name):
+                        its = n.iter.args if isinstance(n.iter, ast.Call) and call_name(n.iter) in ("zip", "enumerate") else [n.iter]
+                        for it in its:
+                            local_defs.setdefault(t.id, []).append(it)
+            if isinstance(n, ast.NamedExpr) and isinstance(n.target, ast.Name):
+                local_defs.setdefault(n.target.id, []).append(n.value)
         r.inst({"function": f.qualname}, exercised=True)
         # ---- (a) attribute stores outside constructors
         if f.name != "__init__":
